@@ -153,15 +153,12 @@ func (p *Prog) Tree(id string, text string, o *renderOpts) Tree {
 	case "mistyped":
 		// valid YAML, proper patterns, ONE value of the wrong type: the decoder reports an error
 		// (after filling the other fields) and the whole file must count as unreadable
-		y := renderConfig(p.Cfg)
-		key := []string{"anti_evasion:\n    unix: ", "anti_evasion:\n    windows: ", "anti_evasion_suffix:\n    unix: ", "anti_evasion_suffix:\n    windows: ", "anti_evasion_no_space_suffix:\n    unix: ", "anti_evasion_no_space_suffix:\n    windows: "}[p.CfgBad%6]
-		short := key[strings.LastIndex(key, "\n")+1:]
-		i := strings.Index(y, key)
-		j := i + len(key)
-		k := j + strings.Index(y[j:], "\n")
-		bad := []string{"[a, b]", "{x: 1}"}[(p.CfgBad/6)%2]
-		_ = short
-		t["regex-assembly/toolchain.yaml"] = y[:j] + bad + y[k:]
+		vals := [6]string{}
+		for q := range vals {
+			vals[q] = yamlQuote(p.Cfg[q])
+		}
+		vals[p.CfgBad%6] = []string{"[a, b]", "{x: 1}"}[(p.CfgBad/6)%2]
+		t["regex-assembly/toolchain.yaml"] = renderConfigRaw(vals)
 	}
 	return t
 }
@@ -169,9 +166,18 @@ func (p *Prog) Tree(id string, text string, o *renderOpts) Tree {
 func yamlQuote(s string) string { return "'" + strings.ReplaceAll(s, "'", "''") + "'" }
 
 func renderConfig(c [6]string) string {
-	return "patterns:\n  anti_evasion:\n    unix: " + yamlQuote(c[0]) + "\n    windows: " + yamlQuote(c[1]) +
-		"\n  anti_evasion_suffix:\n    unix: " + yamlQuote(c[2]) + "\n    windows: " + yamlQuote(c[3]) +
-		"\n  anti_evasion_no_space_suffix:\n    unix: " + yamlQuote(c[4]) + "\n    windows: " + yamlQuote(c[5]) + "\n"
+	var q [6]string
+	for i := range c {
+		q[i] = yamlQuote(c[i])
+	}
+	return renderConfigRaw(q)
+}
+
+// the six values as YAML text (already quoted, or deliberately of another type)
+func renderConfigRaw(c [6]string) string {
+	return "patterns:\n  anti_evasion:\n    unix: " + c[0] + "\n    windows: " + c[1] +
+		"\n  anti_evasion_suffix:\n    unix: " + c[2] + "\n    windows: " + c[3] +
+		"\n  anti_evasion_no_space_suffix:\n    unix: " + c[4] + "\n    windows: " + c[5] + "\n"
 }
 
 // effective configuration as the model receives it (before TrimSpace, which the model applies itself)
